@@ -95,7 +95,13 @@ def evaluate(case, out):
                 else:
                     if con.audit_type == "ONEAUDIT":
                         a.assorter.set_tally_pool_means(cvr_list=cvrs, use_style=us)
-                    a.set_margin_from_cvrs(audit, cvrs)
+                    if len(cvrs) % 5 == 1:
+                        # the pipeline call that sets every margin of the contest(s) at once
+                        from shangrla.core.Audit import Assertion
+                        Assertion.set_all_margins_from_cvrs(audit, {cid: con}, cvrs)
+                        feats.add("margins-by-set_all_margins_from_cvrs")
+                    else:
+                        a.set_margin_from_cvrs(audit, cvrs)
                 v = a.margin
                 u = a.assorter.upper_bound
                 means = a.assorter.tally_pool_means or {}
